@@ -81,3 +81,91 @@ package scanner
 //@ ensures [success-means-a-reply-of-between-one-and-the-requested-number-of-entries] result == nil ==> resp != nil && 1 <= len(resp.Entries) && len(resp.Entries) <= r.end - r.start + 1
 //@ ensures [result-is-the-log-clients-verdict] result == ge.res1 && resp == ge.res0
 //@ at ge assert [asks-for-exactly-the-undelivered-part-of-the-range] ge.start == r.start && ge.end == r.end
+
+// Prepare fixes the range once: EndIndex is clamped to the tree size of the STH it caches.
+//@ func (*Fetcher).Prepare
+//@ props C16
+//@ arith int
+//@ site GetSTH#1 as gs
+//@ requires f != nil && f.opts != nil && f.client != nil && ctx != nil
+//@ modifies f.sth, f.opts.EndIndex
+//@ ensures [cached-sth-is-returned-unchanged] old(f.sth) != nil ==> result0 == old(f.sth) && result1 == nil && f.opts.EndIndex == old(f.opts.EndIndex) && !gs.called
+//@ ensures [sth-error-passed-on] gs.called && gs.res1 != nil ==> result0 == nil && result1 == gs.res1 && f.opts.EndIndex == old(f.opts.EndIndex) && f.sth == old(f.sth)
+//@ ensures [end-index-clamped-to-the-tree-size] gs.called && gs.res1 == nil ==> result0 == gs.res0 && result1 == nil && f.sth == gs.res0 && f.opts.EndIndex == ((old(f.opts.EndIndex) == 0 || old(f.opts.EndIndex) > int64(gs.res0.TreeSize)) ? int64(gs.res0.TreeSize) : old(f.opts.EndIndex))
+
+// The flattening callback of ScanLog: entry i of a batch is handed on with index Start+i, in order.
+//@ func (*Scanner).ScanLog$3
+//@ props C16
+//@ arith int
+//@ site send#1 as snd
+//@ requires b.Start >= 0 && b.Start <= 4611686018427387904
+//@ at snd assert [entry-i-of-the-batch-goes-out-with-index-start-plus-i] snd.x.index == b.Start + (rangeindex + 1) && snd.x.entry == b.Entries[rangeindex + 1]
+
+//@ func (*Scanner).isCertErrorFatal
+//@ props C16
+//@ modifies s.entriesWithNonFatalErrors
+//@ frame-trusted atomic.AddInt64 on the scanner's own counter
+//@ site x509.IsFatal#1 as isf
+//@ requires s != nil && (err != nil && !fatalErr(err) ==> logEntry != nil && logEntry.Leaf.TimestampedEntry != nil)
+//@ ensures [no-error-is-not-fatal] err == nil ==> !result
+//@ ensures [otherwise-the-x509-classification] err != nil ==> isf.called && result == isf.res
+//@ ensures [caller-view] fatalErr(err) ==> result
+
+// A parsed-certificate matcher: for an entry it selects, exactly one of the two callbacks runs,
+// once, with the raw entry decoded from exactly that index and leaf.
+//@ func (*Scanner).processMatcherEntry
+//@ props C16
+//@ site RawLogEntryFromLeaf#1 as raw
+//@ site ToLogEntry#1 as tl
+//@ site isCertErrorFatal#1 as fat
+//@ site CertificateMatches#1 as cm
+//@ site PrecertificateMatches#1 as pm
+//@ site foundCert#1 as fc only
+//@ site foundPrecert#1 as fp only
+//@ requires s != nil && matcher != nil && foundCert != nil && foundPrecert != nil
+//@ ensures [undecodable-entries-reach-no-callback] raw.res1 != nil || (fat.called && fat.res) ==> result != nil && !fc.called && !fp.called
+//@ ensures [certificate-callback-exactly-for-selected-certificates] fc.called <==> (cm.called && cm.res)
+//@ ensures [precertificate-callback-exactly-for-selected-precertificates] fp.called <==> (pm.called && pm.res)
+//@ ensures [never-both] !(fc.called && fp.called)
+//@ at raw assert [decodes-the-entry-at-its-own-index] raw.index == info.index && *raw.entry == info.entry
+//@ at tl assert [parses-what-was-decoded] tl.rle == raw.res0
+//@ at cm assert [certificates-are-matched-unless-only-precertificates-are-wanted] !s.opts.PrecertOnly && cm.arg0 == tl.res0.X509Cert && tl.res0.X509Cert != nil
+//@ at pm assert [precertificates-are-always-matched] pm.arg0 == tl.res0.Precert && tl.res0.X509Cert == nil && tl.res0.Precert != nil
+//@ at fc assert [callback-gets-the-raw-entry] fc.arg0 == raw.res0
+//@ at fp assert [callback-gets-the-raw-entry] fp.arg0 == raw.res0
+
+// A leaf matcher: the callback for the entry's type runs exactly once for an entry it selects.
+//@ func (*Scanner).processMatcherLeafEntry
+//@ props C16
+//@ site Matches#1 as m
+//@ site RawLogEntryFromLeaf#1 as raw
+//@ site foundCert#1 as fc only
+//@ site foundPrecert#1 as fp only
+//@ dead return#5
+//@ note return#5 (unknown entry type) is unreachable: RawLogEntryFromLeaf yields only X.509 and precertificate entries (its contract, C12)
+//@ requires s != nil && matcher != nil && foundCert != nil && foundPrecert != nil
+//@ ensures [unselected-entries-reach-no-callback] !m.res ==> result == nil && !raw.called && !fc.called && !fp.called
+//@ ensures [undecodable-entries-reach-no-callback] raw.called && raw.res1 != nil ==> result != nil && !fc.called && !fp.called
+//@ ensures [selected-certificate-goes-to-the-certificate-callback-unless-precert-only] m.res && raw.called && raw.res1 == nil && after(raw, raw.res0.Leaf.TimestampedEntry.EntryType) == ct.X509LogEntryType ==> (fc.called <==> !after(m, s.opts.PrecertOnly)) && !fp.called
+//@ ensures [selected-precertificate-goes-to-the-precertificate-callback] m.res && raw.called && raw.res1 == nil && after(raw, raw.res0.Leaf.TimestampedEntry.EntryType) == ct.PrecertLogEntryType ==> fp.called && !fc.called
+//@ at m assert [matcher-sees-the-leaf-as-fetched] *m.arg0 == info.entry
+//@ at raw assert [decodes-the-leaf-the-matcher-selected-at-its-own-index] raw.index == info.index && raw.entry == m.arg0
+//@ at fc assert [callback-gets-the-raw-entry] fc.arg0 == raw.res0
+//@ at fp assert [callback-gets-the-raw-entry] fp.arg0 == raw.res0
+
+//@ func (*Scanner).processEntry
+//@ props C16
+//@ site processMatcherEntry#1 as pme
+//@ site processMatcherLeafEntry#1 as pml
+//@ requires s != nil && foundCert != nil && foundPrecert != nil
+//@ ensures [entry-goes-to-the-configured-kind-of-matcher-once] (pme.called ==> result == pme.res && !pml.called) && (pml.called ==> result == pml.res && !pme.called) && (!pme.called && !pml.called ==> result != nil)
+//@ at pme assert [same-entry-and-callbacks] pme.info == info
+//@ at pml assert [same-entry-and-callbacks] pml.info == info
+
+// A matcher worker: every entry it receives is processed exactly once.
+//@ func (*Scanner).matcherJob
+//@ props C16
+//@ site recv#1 as rcv
+//@ site processEntry#1 as pe
+//@ requires s != nil && foundCert != nil && foundPrecert != nil
+//@ at pe assert [processes-exactly-the-entry-received] pe.info == rcv.res
